@@ -83,7 +83,7 @@ def gen_vectors(rng, n_random, directed):
                 V.append(('add', F, {'a': (1 << k) - 1, 'b': 1}))
                 V.append(('sub', F, {'a': (1 << k) % top, 'b': 1}))
                 V.append(('sub', F, {'a': 0, 'b': (1 << (k - 1))}))
-            for s in c02.boundary_sums(F, rng):
+            for s in c02.boundary_sums(F, rng) + c02.cascade_sums(F, rng):
                 for _ in range(2):
                     a, b = c02.split_sum(F, s, rng)
                     V.append(('fpadd', F, {'a': a, 'b': b}))
